@@ -262,6 +262,25 @@ func sharingHistories(out *caseOut, cfg string, h tree.HashFn, salt int64) {
 			{kind: "htr", h: 0}, {kind: "append", h: 0, src: srcSpec{kind: "h", h: 1}}, {kind: "htr", h: 2}, {kind: "ser", h: 2}, {kind: "htr", h: 0}, {kind: "memo"}, {kind: "pop", h: 0}, {kind: "htr", h: 0}}
 		cases = append(cases, sc{lt, ops})
 	}
+	// Root views handed out by a parent (also of default, i.e. shared zero, elements) and written
+	// in place: the parent, its copies, earlier backings and the zero nodes must not change; a
+	// Root view set into another parent and written afterwards must not change that parent
+	for _, lim := range []uint64{3, 1 << 40} {
+		ct := &Ty{Kind: "cont", Fields: []*Ty{{Kind: "list", Elem: rootT, N: lim}, {Kind: "vec", Elem: rootT, N: 2}, rootT}}
+		for variant := 0; variant < 4; variant++ {
+			ops := []hop{{kind: "get", h: 0, i: 0}, {kind: "get", h: 0, i: 1}, {kind: "append", h: 1, src: litRoot},
+				{kind: "htr", h: 0}, {kind: "snap", h: 0}, {kind: "snap", h: 1}, {kind: "snap", h: 2}, {kind: "copy", h: 0}}
+			// handle 3 = the copy; 4.. = root views
+			ops = append(ops, hop{kind: "get", h: 2, i: uint64(variant % 2)}, hop{kind: "get", h: 1, i: 0}, hop{kind: "get", h: 0, i: 2})
+			ops = append(ops, hop{kind: "snap", h: 4}, hop{kind: "rootwrite", h: 4, i: uint64(10 + variant)}, hop{kind: "htr", h: 0}, hop{kind: "memo"}, hop{kind: "ser", h: 0}, hop{kind: "htr", h: 3})
+			ops = append(ops, hop{kind: "rootwrite", h: 5, i: uint64(21 + variant)}, hop{kind: "htr", h: 0}, hop{kind: "ser", h: 3})
+			ops = append(ops, hop{kind: "copy", h: 6}, hop{kind: "rootwrite", h: 7, i: uint64(30 + variant)}, hop{kind: "htr", h: 6}, hop{kind: "htr", h: 0})
+			// a written Root view inserted into a parent, then written again
+			ops = append(ops, hop{kind: "append", h: 1, src: srcSpec{kind: "h", h: 4}}, hop{kind: "htr", h: 0}, hop{kind: "snap", h: 0},
+				hop{kind: "rootwrite", h: 4, i: uint64(40 + variant)}, hop{kind: "htr", h: 0}, hop{kind: "memo"}, hop{kind: "ser", h: 0}, hop{kind: "htr", h: 4})
+			cases = append(cases, sc{ct, ops})
+		}
+	}
 	for _, c := range cases {
 		s := &hstate{h: h, count: &hashCalls}
 		s.push(c.ty, c.ty.Def().Default(nil))
